@@ -349,8 +349,15 @@ def h_mi(env, centres, order, overrides, shuffle_seed=0, str_keys=True, canary=N
             u = env.real("user_" + "_".join(str(x) for x in S), lo=-5, hi=5)
             user[_fid(S)] = u
             Eeff[idx] = u + corr[idx]
+        user_before = dict(user)
         got_u = helper.mi_summation(user_provided_energies=user)
         env.check_eq(got_u, reference(Eeff), f"mi_summation with user energies {sorted(user)} (n={n}, order={order}) == reference with replaced energies")
+        if canary is None:
+            # the caller keeps the dictionary (e.g. refines one energy in a loop): it is unchanged, and the same call gives the same sum
+            env.check_true(set(user) == set(user_before) and all(user[k_] is user_before[k_] or user[k_] == user_before[k_] for k_ in user),
+                           "mi_summation leaves the caller's user_provided_energies unchanged")
+            env.check_eq(helper.mi_summation(user_provided_energies=user), reference(Eeff),
+                         f"mi_summation called a second time with the same user energies (n={n}, order={order}) == the same reference")
         if order == n:
             env.check_eq(got_u, Eeff[full], f"mi_summation with user energies at full order == (replaced) energy of the complete fragment")
         if canary is None:
